@@ -40,6 +40,8 @@ type Router struct {
 	statePath   string
 	services    *ServiceMap
 	serviceLock sync.RWMutex
+
+	snapshotLock sync.Mutex
 }
 
 type ServiceDescription struct {
@@ -322,6 +324,11 @@ func (r *Router) findOrCreateService(name string, options ServiceOptions, target
 }
 
 func (r *Router) saveStateSnapshot() error {
+	// Snapshots are taken and written one at a time, so that the last one to
+	// reach the disk is also the last one taken.
+	r.snapshotLock.Lock()
+	defer r.snapshotLock.Unlock()
+
 	services := []*Service{}
 	r.withReadLock(func() error {
 		for _, service := range r.services.All() {
